@@ -93,6 +93,16 @@ CLAIMS.update({
     text="Theorems about the resolution model Prov (names -> executor items keyed by (name, provider)): C12_attach_idempotent (attaching the same listeners again, any number of times, leaves every executor unchanged), C12_no_duplicate_keys, C12_all_providers_called (every provider offering a name is in the executor), C12_only_offered, C12_parity (resolution uses providers only through id and attributes: machine, model and listeners are treated alike). Phases/argument injection for provider callbacks are C02/C07 on the shared engine. Correspondence: callbacks (conventions, names, guards, validators) distributed over machine/model/constructor listeners/late listeners, the same name on 1-3 providers (guard conjunction), listeners attached at random points and re-attached, async listener methods, and a second instance of the class driven alongside to check that one instance's listeners are never invoked by another. Known findings D12 (late async listener on a sync machine) and D13 (guard re-evaluated per re-attachment) are probed and reported; multi-provider `unless` names and coroutine guards inside a provider conjunction are not generated (see DESIGN).",
     design="7 C12"),
 })
+CLAIMS.update({
+  "C16": dict(
+    technique="Lean 4 proof (frame theorem over interleaved operation histories of a world of instances; signature-cache independence; store model of inheritance: a subclass body that creates no transition out of an inherited state leaves the base class's candidates unchanged) + world correspondence: interleaved classes/instances vs each instance alone vs the model",
+    text="Theorems C16_frame / C16_interleaving_irrelevant (for every interleaving of operations on any number of instances, instance i's configuration — state, queue, full callback log with arguments — is what its own operations alone produce), C07_local (the adapter used for a callable is independent of every callable cached before, incl. same-named classes/methods, partials, def/async-def twins; counterexample for the pre-fix key, D6), C16_subclass_frame_partial (in the store model of class elaboration, defining a subclass whose body declares no transition out of an inherited state and — after fix 8ac2dc6 — re-expands no any() leaves every base state's outgoing transitions unchanged; witnesses D7 for the excluded shape and D7b for the pre-fix inherit). The model has no process-wide mutable state by construction; that the real library has none is what the correspondence checks: random worlds of 1-3 classes (70% same class name; twins with same callback names, other signatures, def/async-def flipped), subclasses adding convention callbacks, 1-2 instances per class with own model/listeners/options, operations merged in random order (classes defined mid-history, base-first and subclass-first), operations of one machine executed inside callbacks of another, no-loop and in-loop drivers; every instance is compared with the Lean model of it alone and with a solo run. Known finding D7 (subclass transition out of an inherited state mutates the base) is probed and reported.",
+    design="7 C16"),
+  "C17": dict(
+    technique="Lean 4 proof (clone = re-construction over the copied model field; identity on a machine at rest, one queued activation for a not-yet-activated async machine; registry model: registering all providers in one pass = the constructor's registry) + correspondence: clones taken at random points of random histories, diverging interleaved suffixes, vs the model of the original and vs an un-cloned reference run; identity checks",
+    text="Theorems C17_clone_equiv / C17_clone_then_ops (a clone of a machine at rest holding a state has exactly the original's configuration, in every mode, hence responds identically to every subsequent operation sequence), C17_clone_unactivated (a not-yet-activated async machine clones into one with exactly one activation trigger queued — D14 repaired), C17_independent (original and clone are two instances of a world: C16_frame), C17_registry_* (the clone's callback registry equals the constructor's for the same providers; witnesses D25a/D25b for the pre-fix __setstate__). Correspondence: random machines (callbacks on machine/model/listeners in all styles, sync/async) cloned by deepcopy and pickle at 1-2 random points incl. before the first event and before async activation, clone of a clone, options rtc/allow/start_value/state_field; original and clones get different interleaved suffixes (with nested sends placed in the suffixes); each clone is compared with the Lean model of `prefix ++ suffix` and with a fresh un-cloned machine, the original with its own model; machine/model/listener objects must be distinct and callbacks must run on the instance's own objects.",
+    design="7 C17"),
+})
 NOT_APPLICABLE = {}
 
 def main():
@@ -112,13 +122,14 @@ def main():
           for p in props if p not in CLAIMS]
     man = dict(
         version=1,
-        setup_cmd="cd lean && lake build SMV driver",
+        setup_cmd="cd lean && lake build SMV " + " ".join(f"SMV.Props.{p}" for p in props) +
+                  " driver drv_bind drv_expr drv_validate drv_protocol drv_diagram drv_decl drv_store",
         hooks=dict(guard="PYSM_VERIF", enable="no source hooks are used: observation is through the public API, sys.settrace and objects supplied by the harness",
-                   baseline_off_cmd=BASE.get("cmd", "cd /repo && /venv/bin/python -m pytest -q"), source_commits=FIXES, add_only=True),
+                   baseline_off_cmd=BASE.get("cmd", "cd /repo && /venv/bin/python -m pytest -q"), source_commits=[], add_only=True),
         engines=[dict(name="lean+harness", path="lean/ + harness/", serves_properties=[c["property_id"] for c in checks],
                       kind_free_text="Lean 4 models and theorems (lean/SMV), line-protocol driver (lean/Driver.lean), Python correspondence harness (harness/)")],
         checks=checks, not_applicable=na,
-        notes="See DESIGN.md. Fix commits in /repo are listed in hooks.source_commits and known_findings.jsonl.")
+        notes="See DESIGN.md. No hook commits exist. Unguarded `fix:` commits in /repo (each recorded in known_findings.jsonl): " + ", ".join(FIXES) + ". Seeded property-breaking changes used to test the checks: seeded/ (tools/seeded.py).")
     json.dump(man, open(os.path.join(VERIF, "MANIFEST.json"), "w"), indent=1)
     print("checks:", [c["property_id"] for c in checks], "n/a:", len(na))
 main()
